@@ -126,9 +126,55 @@ func init() {
 	plans["C17"] = Plan{
 		Quick: []Job{
 			{H: "H_C17_ErrNotLost", K: 24, U: 3},
+			{H: "H_C17_Small", K: 12, U: 3},
+			{H: "H_C17_Two", K: 30, U: 3, Covers: 3, TimeoutSec: 900},
 		},
-		Bounds:  "2 functions; K=24 global steps; U=3",
-		Outside: "more than 3 functions",
+		Thorough: []Job{
+			{H: "H_C17_Three", K: 40, U: 4, TimeoutSec: 3000, QueryMs: 2400000},
+		},
+		Bounds:  "0, 1, 2 (thorough: 3) entries, each of symbolic kind {nil entry, returns nil, returns its own error, waits for its context then returns Canceled}; optional cancellation of the caller's context at any point; K<=30 (40) global steps, U=3 (4)",
+		Outside: "more than 3 functions; functions that panic",
+	}
+
+	plans["C01"] = Plan{
+		Quick: []Job{
+			{H: "H_C01_Mutex3", K: 26, U: 3, Covers: 2, Only: "assert/|panic/"},
+			{H: "H_C01_MutexLocker", K: 26, U: 3, Only: "assert/|panic/"},
+			{H: "H_C01_RW_2R1W", K: 26, U: 3, Covers: 1, Only: "assert/|panic/"},
+			{H: "H_C01_RW_1R2W", K: 26, U: 3, Covers: 1, Only: "assert/|panic/"},
+			{H: "H_C01_RWLocker", K: 26, U: 3, Only: "assert/|panic/", TimeoutSec: 900},
+		},
+		Thorough: []Job{
+			{H: "H_C01_RWSym2", K: 24, U: 3, Only: "assert/|panic/", TimeoutSec: 3000, QueryMs: 2400000},
+			{H: "H_C01_RWSym3", K: 30, U: 3, Only: "assert/|panic/", TimeoutSec: 7000, QueryMs: 6000000},
+		},
+		Bounds:  "3 role-specialised goroutines per scenario (Mutex: cancellable Lock / TryLock+double release / Lock+double release; Locker adapters; RWMutex: 2 readers+1 writer and 1 reader+2 writers mixing cancellable Lock, TryLock and double release; Locker/RLocker), one acquire each, cancellation at any moment (environment event); K=26 global steps, U=3. Thorough: 2 and 3 actors whose API, mode, cancellation and double release are all symbolic.",
+		Outside: "more than 3 goroutines, more than one acquire per goroutine",
+	}
+	plans["C02"] = Plan{
+		Quick: []Job{
+			{H: "H_C02_LongReader", K: 26, U: 3, Covers: 1},
+			{H: "H_C02_NoTrace", K: 28, U: 3, Covers: 2},
+			{H: "H_C02_MutexNoTrace", K: 28, U: 3, Covers: 1},
+			{H: "H_C02_WriterPreference", K: 26, U: 3, TimeoutSec: 900},
+			{H: "H_C01_Mutex3", K: 26, U: 3, Only: "stuck/"},
+			{H: "H_C01_RW_2R1W", K: 26, U: 3, Only: "stuck/"},
+			{H: "H_C01_RW_1R2W", K: 26, U: 3, Only: "stuck/"},
+		},
+		Thorough: []Job{
+			{H: "H_C01_RWSym3", K: 30, U: 3, Only: "stuck/", TimeoutSec: 7000, QueryMs: 6000000},
+		},
+		Bounds:  "3-4 goroutines per scenario: long-lived reader + cancelled write-waiter + late reader; holder + cancellable writer + cancellable reader followed by TryLock probes at quiescence (no trace); Mutex analogue; writer preference with ghost flags; plus the lost-wake-up (stuck at quiescence) class of the three C01 scenarios. K=26-28, U=3.",
+		Outside: "fairness among several grantable waiters; more than 4 goroutines",
+	}
+	plans["C03"] = Plan{
+		Quick: []Job{
+			{H: "H_C03_Wait", K: 30, U: 3, Covers: 2},
+			{H: "H_C03_WaitErr", K: 30, U: 3, Covers: 1},
+			{H: "H_C03_Generations", K: 20, U: 3},
+		},
+		Bounds:  "1-2 waiters, 1-2 broadcasting critical sections through HoldLock / TryHoldLock / HoldLockMaybeAsync (incl. its goroutine slow path), cancellation of the waiter at any moment; generation harness with a concurrent third party; K<=30, U=3",
+		Outside: "more than 2 waiters / 3 broadcasters",
 	}
 
 	boundary := []int{0, 1, 2, 30, 31, 32, 33, 62, 63, 64, 65}
